@@ -112,6 +112,14 @@ CLAIMS = {
          "and with the reference. Shards run under different PYTHONHASHSEED values, so set/dict iteration orders inside the solvers vary too. Sampled.",
          "Trusted: the transform in vf/props/c12.py (self-checked inverse), vf/oracle_fgg.py, Hypothesis.",
          "DESIGN.md section 5, C12"),
+ 'C14': ("Hypothesis-generated grammars and patterned weight specifications: round-trip oracle (serialise, json.dumps/loads, parse, compare up to isomorphism; verbatim second trip), independent interpreter for weight specs, rejection oracle for corrupted node numbers",
+         "Grammars with implicit/explicit/mixed ids, finite (string/int) and range domains, dense and patterned weights, inf entries, unused labels and any "
+         "start arity are serialised and parsed back: start, label tables, per-lhs rule order, rule isomorphism (externals in order, explicit ids kept), "
+         "domains, dense weights and the sum-product must be preserved; with all ids explicit the JSON must be reproduced verbatim. Patterned weight "
+         "specs {physical, expand, vaxes, default} must denote what an independent interpreter says. A valid JSON with one attachment/external number made "
+         "negative or too large must be rejected with ValueError by json_to_fgg and json_to_hrg. Sampled.",
+         "Trusted: vf/iso.py brute-force isomorphism, vf/gen_pattern.py interpreter, vf/oracle_fgg.py, Python json, Hypothesis.",
+         "DESIGN.md section 5, C14"),
 }
 
 NOT_YET = {}   # id -> reason (filled while the framework is being built)
